@@ -26,10 +26,13 @@ TEXT = {
     "C13.visible-order": "C_::deepEnter stores the region's active prong (and clears the pending one) before it invokes any callback (HeadState::deepEnter, "
                          "SubStates::wideEnter): inside enter() of a region head the region is active *and* has its active sub-state; O_::deepEnter likewise "
                          "has nothing to store after its first callback",
+    "C13.resume-api": "every API member named resume* / schedule* (R_, RP_, FullControlBaseT, FullControlT, PlanT, PayloadPlanT, immediate forms included) queues "
+                      "the RESUME / SCHEDULE kind its name denotes - `the sub-state reported resumable is the one a subsequent resume activates` holds only if "
+                      "resume() is a RESUME request and schedule() writes the mark isResumable / isScheduled read (shared with C02.name-kind rule instances)",
     "C13.resume-path": "C_::deepRequestResume stores `resumable != INVALID ? resumable : 0` read from compoResumable[COMPO_INDEX] and the CS_ dispatchers hand it "
                        "down to the same-named member (shared with C02/C03 rule instances)",
 }
-MIN_INSTANCES = {"C13.visible-order": 1, "C13.siblings": 6, "C13.fields": 6, "C13.sentinel": 2, "C13.facade": 12, "C13.resume-path": 20}
+MIN_INSTANCES = {"C13.visible-order": 1, "C13.siblings": 6, "C13.fields": 6, "C13.sentinel": 2, "C13.facade": 12, "C13.resume-path": 20, "C13.resume-api": 20}
 
 QUERIES = ("activeSubState", "isActive", "isResumable", "isPendingEnter", "isPendingChange", "isPendingExit")
 
@@ -140,6 +143,29 @@ def check_visible_order(ctx, F):
             ctx.violation("C13.visible-order", site, "%s (%s)" % (site, F.floc(fid)), bad, {})
 
 
+class _ResumeApi:
+    """C02.name-kind restricted to the resume / schedule family, reported under this property"""
+
+    def __init__(self, ctx):
+        self.ctx = ctx
+
+    def __getattr__(self, n):
+        return getattr(self.ctx, n)
+
+    @staticmethod
+    def _mine(site):
+        n = site.split("::")[-1].split("/")[0].lower()
+        return "resume" in n or "schedule" in n
+
+    def instance(self, rule, site, sample=None):
+        if self._mine(site):
+            self.ctx.instance("C13.resume-api", site, sample)
+
+    def violation(self, rule, key, where, msg, detail=None):
+        if self._mine(key):
+            self.ctx.violation("C13.resume-api", key, where, msg, detail)
+
+
 def check(ctx, F):
     _FN["F"] = F
     check_visible_order(ctx, F)
@@ -147,6 +173,8 @@ def check(ctx, F):
     # own choice down (routing.check_descend, shared with C01 / C02) and the commit runs on an approved round's requests (C04.round)
     from . import routing, C04, C03
     routing.check_descend(ctx, F, "C13.resume-path")
+    from . import C02
+    C02.check_name_kind(_ResumeApi(ctx), F)
     C04.check_round(C03._Alias(ctx, {"C04.round": "C13.visible-order"}), F)
     per = {}
     for fid, b in insts(F, "RegistryT", set(QUERIES)):
